@@ -47,6 +47,8 @@ class Modes(Stage):
                     # characters that str.splitlines() treats as line ends but a text stream does not
                     c = c + d.choice(['\x0c', '\x0b', '\x1c', '\x1d', '\x1e', '\x85', '\u2028', '\u2029']) + 'tail'
                 lines.append(c[:300])
+                if d.chance(0.2):
+                    lines.append(c[:300])      # the same line twice in a row
             lines.append(wire.render(m, dialect))
         while d.chance(0.3):
             lines.append(gen_chatter(d)[:300])
@@ -55,7 +57,8 @@ class Modes(Stage):
         data = text.encode('utf-8').replace('\ue000'.encode('utf-8'), b'\xff')
         return dict(text=text, chunks=[gen_chunks(d, data), gen_chunks(d, data)], exit=d.choice([0, 0, 1, 2, 7, 99, 127, 255, d.int(0, 255)]),
                     argv=[d.choice(ARGS) for _ in range(d.int(0, 5))] + ([d.choice(['--matcher-help', '--help', '-h', '--verbose', '-g'])] if d.chance(0.2) else []), marker=d.int(0, 9999), supress=d.chance(0.2), filter=d.choice([None, None, 'wl_display', '* ! .bind']),
-                    linger=d.choice([0, 0, 0, 0, 0, 0, 0, 1.3]), libwayland=d.chance(0.2), no_stdin=d.chance(0.3), slow_pipe=d.choice([None, None, None, None, None, None, [1.4, 0.0], [0.0, 1.2], [1.3, 0.3]]), nmsg=len(specs), hashseeds=[d.int(0, 4000) for _ in range(4)], exe=d.choice([None, None, None, 'child prog', 'a "b" c', 'back\\slash', 'x y z']), brk=d.choice([None, None, None, '.sync', 'wl_registry, wl_display', '*', 'wl_display ! .sync', '.bind']), parent_wayland_debug=d.choice([None, None, '1', 'client', 'server', '0', '']))
+                    linger=d.choice([0, 0, 0, 0, 0, 0, 0, 1.3]), libwayland=d.chance(0.2), no_stdin=d.chance(0.3), slow_pipe=d.choice([None, None, None, None, None, None, [1.4, 0.0], [0.0, 1.2], [1.3, 0.3]]), nmsg=len(specs), hashseeds=[d.int(0, 4000) for _ in range(4)], exe=d.choice([None, None, None, 'child prog', 'a "b" c', 'back\\slash', 'x y z']), brk=d.choice([None, None, None, '.sync', 'wl_registry, wl_display', '*', 'wl_display ! .sync', '.bind']), parent_wayland_debug=d.choice([None, None, '1', 'client', 'server', '0', '']),
+                    via_shell=d.choice([None, None, None, 'sh', 'sh', 'dash', 'bash']))      # the program is named the usual way: a bare name found through PATH
 
     def execute(self, case):
         res = Result()
@@ -76,6 +79,11 @@ class Modes(Stage):
                 for variant in (case['exe'].split(), case['exe'].replace('\\', '').split(), case['exe'].replace('"', '').split()):
                     if variant and variant[0] != case['exe'] and not os.path.exists(sc.path(variant[0])):
                         sc.write(variant[0], '#!' + cli.PY + '\n' + cli.CHILD, exe=True)
+            SH_SCRIPT = 'cat /proc/$$/cmdline > "$WDV_ARGV0_OUT"; exec "$WDV_PY" "$WDV_CHILD" "$@"'
+            via_shell = case.get('via_shell') if command == [cli.PY, child] else None
+            if via_shell:
+                # a shell found through PATH notes the command line it was started with, then becomes the reporting program
+                command = [via_shell, '-c', SH_SCRIPT, 'zero']
             # every run is a process of its own: Python's string hashing differs from process to process (PYTHONHASHSEED is random
             # unless set), which must not show in the display
             hs = [dict(PYTHONHASHSEED=str(x)) for x in (case.get('hashseeds') or [0, 0, 0, 0])]
@@ -130,6 +138,8 @@ class Modes(Stage):
                 linger = case.get('linger', 0) if k == 0 else 0
                 spec = sc.write('spec%d.json' % k, json.dumps(dict(report=report, chunks=chunks, exit=case['exit'], stdout=marker, linger=linger)))
                 extra = dict(hs[2 + k], WDV_CHILD_SPEC=spec)
+                if via_shell:
+                    extra.update(WDV_ARGV0_OUT=sc.path('cmdline%d' % k), WDV_PY=cli.PY, WDV_CHILD=child)
                 if case.get('parent_wayland_debug') is not None:
                     extra['WAYLAND_DEBUG'] = case['parent_wayland_debug']     # wayland-debug itself started from such an environment
                 rc, out, err = cli.run_main(run_opts + ['-r'] + command + case['argv'], stdin=run_stdin, extra_env=extra)
@@ -152,6 +162,11 @@ class Modes(Stage):
                 rep = json.load(open(report))
                 if rep['argv'] != case['argv']:
                     res.bad('program-argv', 'started with %r, expected %r' % (rep['argv'], case['argv']))
+                if via_shell:
+                    got = open(sc.path('cmdline%d' % k), 'rb').read().split(b'\0') if os.path.exists(sc.path('cmdline%d' % k)) else None
+                    want = [w.encode() for w in command + case['argv']]
+                    if got is None or got[:len(want)] != want:
+                        res.bad('program-argv0', 'started as %r, the program\'s own command line reads %r' % (command[:1] + ['-c', '...'] + command[3:] + case['argv'], got and got[:len(want)]))
                 if rep['wayland_debug'] != '1':
                     res.bad('wayland-debug-env', repr(rep['wayland_debug']))
                 if case.get('libwayland') and sc.path('libwl dir') not in (rep.get('ld') or '').split(':'):
@@ -188,6 +203,7 @@ class Modes(Stage):
         if case.get('slow_pipe'): res.label('slow-producer-on-the-pipe')
         if case.get('brk'): res.label('with -b')
         if case.get('exe') and not case['argv']: res.label('program-is-one-word')
+        if case.get('via_shell') and not (case.get('exe') and not case['argv']): res.label('program-by-bare-name')
         if '\r' in case['text']: res.label('carriage-return-in-chatter')
         if any(a.startswith('-') for a in case['argv']): res.label('option-lookalike-argv')
         if case.get('parent_wayland_debug') not in (None, '1'): res.label('parent-WAYLAND_DEBUG-set-otherwise')
